@@ -351,8 +351,20 @@ FAULT_KINDS = {
 
 
 def gen_faults(rng, cfg, hint=None):
-    """Draw 0..2 armed faults for one API call.  `hint` may give per-class primitive counts."""
+    """Draw 0..2 armed faults for one API call.  `hint` gives approximate per-class primitive counts of
+    the call, so that faults are placed inside the operation (a read fault on a pure write tests nothing)."""
     kinds = cfg.get("fault_kinds") or []
+    if hint:
+        def fits(k):
+            on = FAULT_KINDS[k][0]
+            if on == "any":
+                return True
+            if on == "any_rw":
+                return "read" in hint or "write" in hint
+            if on in ("stat", "open"):
+                return True
+            return on in hint
+        kinds = [k for k in kinds if fits(k)]
     if not kinds or not rng.chance(cfg.get("fault_rate", 0.0)):
         return []
     out = []
@@ -360,7 +372,8 @@ def gen_faults(rng, cfg, hint=None):
         kind = rng.pick(kinds)
         on, hi = FAULT_KINDS[kind]
         if on == "any_rw":
-            on = rng.pick(["read", "write"])
+            opts = [c for c in ("read", "write") if not hint or c in hint]
+            on = rng.pick(opts or ["read", "write"])
         if hint and on in hint:
             hi = max(0, hint[on] - 1)
         f = {"kind": kind, "on": on, "at": rng.geometric(0.45, hi)}
